@@ -365,6 +365,9 @@ func ruleEqShapeBody(c *Ctx, b *Body) {
 					return
 				}
 				if f.Pkg == b.Lib && f.Signature.Recv() == nil {
+					if b.codecDecodeWrapper(f, 0) {
+						return // the codec's decoder behind a one-line wrapper: Q2 judges it
+					}
 					s := a.sidesOf(x)
 					if s["N"] || s["O"] {
 						alien = append(alien, fname(f)+" at "+at)
@@ -440,16 +443,14 @@ func ruleEqShapeBody(c *Ctx, b *Body) {
 			continue
 		}
 		why := "computed from both operands"
-		if call, ok := v.(*ssa.Call); ok {
-			if f := call.Call.StaticCallee(); f != nil && f.Pkg != nil && f.Pkg.Pkg.Path() == "bytes" && f.Name() == "Equal" {
-				ok1, p1 := isCompact(call.Call.Args[0])
-				ok2, p2 := isCompact(call.Call.Args[1])
-				if !ok1 || !ok2 || p1 == "?" || p2 != swapSide(p1) {
-					l.add("R-EQSHAPE", b.Name, key, b.posOf(r), Violated, "bytes.Equal is not applied to the compacted text of each operand: texts that differ only in insignificant whitespace would compare unequal", true)
-					continue
-				}
-				why = "bytes.Equal(compact(" + p1 + "), compact(" + p2 + "))"
+		if bx, by, isCmp := byteComparison(v); isCmp {
+			ok1, p1 := isCompact(bx)
+			ok2, p2 := isCompact(by)
+			if !ok1 || !ok2 || p1 == "?" || p2 != swapSide(p1) {
+				l.add("R-EQSHAPE", b.Name, key, b.posOf(r), Violated, "the byte comparison is not applied to the compacted text of each operand: texts that differ only in insignificant whitespace would compare unequal", true)
+				continue
 			}
+			why = "bytes of compact(" + p1 + ") == bytes of compact(" + p2 + ")"
 		}
 		l.add("R-EQSHAPE", b.Name, key, b.posOf(r), Discharged, why, true)
 	}
@@ -480,26 +481,27 @@ func ruleEqShapeBody(c *Ctx, b *Body) {
 		}
 		nCmp := 0
 		allInstrs(eq, func(i ssa.Instruction) {
-			call, ok := i.(*ssa.Call)
-			if !ok {
+			iv, isV := i.(ssa.Value)
+			if !isV {
 				return
 			}
-			f := call.Call.StaticCallee()
-			if f == nil || f.Pkg == nil || f.Pkg.Pkg.Path() != "bytes" || f.Name() != "Equal" {
+			bx, by, isCmp := byteComparison(iv)
+			if !isCmp {
 				return
 			}
-			ok1, _ := isCompact(call.Call.Args[0])
+			call := i
+			ok1, _ := isCompact(bx)
 			if !ok1 {
 				return
 			}
 			// a comparison with a fixed text (the literal null) asks for one spelling of one
 			// operand; it does not compare the two values
-			if s2 := a.sidesOf(call.Call.Args[1]); !s2["N"] && !s2["O"] {
+			if s2 := a.sidesOf(by); !s2["N"] && !s2["O"] {
 				return
 			}
 			nCmp++
 			key := fmt.Sprintf("%s: byte comparison #%d is reached only for values that are neither object nor array", name, nCmp)
-			node := call.Call.Args[0].(*ssa.Call).Call.Args[0]
+			node := bx.(*ssa.Call).Call.Args[0]
 			var missing []string
 			for _, p := range probes {
 				found := false
@@ -545,6 +547,21 @@ func ruleEqShapeBody(c *Ctx, b *Body) {
 		if !ok || bt.Info()&types.IsString == 0 {
 			return
 		}
+		// string(x) == string(y) of two byte slices is bytes.Equal(x, y): a comparison of texts,
+		// not of decoded strings
+		if cx, ok := bo.X.(*ssa.Convert); ok && isByteSlice(cx.X.Type()) {
+			if cy, ok := bo.Y.(*ssa.Convert); ok && isByteSlice(cy.X.Type()) {
+				return
+			}
+			if _, isConst := bo.Y.(*ssa.Const); isConst {
+				return
+			}
+		}
+		if _, isConst := bo.X.(*ssa.Const); isConst {
+			if cy, ok := bo.Y.(*ssa.Convert); ok && isByteSlice(cy.X.Type()) {
+				return
+			}
+		}
 		nStr++
 		key := fmt.Sprintf("%s: string comparison #%d compares what the codec's decoder made of each side's compacted text", name, nStr)
 		var srcs []string
@@ -574,7 +591,7 @@ func ruleEqShapeBody(c *Ctx, b *Body) {
 							continue
 						}
 						f := ci.Common().StaticCallee()
-						if f == nil || f.Pkg != b.Codec {
+						if f == nil || (f.Pkg != b.Codec && !b.codecDecodeWrapper(f, 0)) {
 							bad = "the string is filled by " + calleeLabel(ci.Common()) + ", not by the embedded codec's decoder (another unescaper does not implement JSON's escapes: \\/ , \\uXXXX surrogate pairs, invalid UTF-8 replacement)"
 							continue
 						}
@@ -847,4 +864,27 @@ func (a *eqAn) indexCoversAll(ia *ssa.IndexAddr) (bool, string) {
 		}
 	}
 	return false, "the loop bound is not the length of " + want + ": trailing elements are never compared"
+}
+
+
+// byteComparison: v compares two byte slices for equality — bytes.Equal(x, y), or
+// string(x) == string(y) — and returns the two slices.
+func byteComparison(v ssa.Value) (ssa.Value, ssa.Value, bool) {
+	switch x := v.(type) {
+	case *ssa.Call:
+		f := x.Call.StaticCallee()
+		if f != nil && f.Pkg != nil && f.Pkg.Pkg.Path() == "bytes" && f.Name() == "Equal" && len(x.Call.Args) == 2 {
+			return x.Call.Args[0], x.Call.Args[1], true
+		}
+	case *ssa.BinOp:
+		if x.Op != token.EQL {
+			return nil, nil, false
+		}
+		cx, ok1 := x.X.(*ssa.Convert)
+		cy, ok2 := x.Y.(*ssa.Convert)
+		if ok1 && ok2 && isByteSlice(cx.X.Type()) && isByteSlice(cy.X.Type()) {
+			return cx.X, cy.X, true
+		}
+	}
+	return nil, nil, false
 }
